@@ -31,7 +31,7 @@ from vf.cond import known_findings
 
 VERIF = os.path.dirname(os.path.dirname(os.path.abspath(__file__)))
 # runs against a scratch tree (INDIPY_SRC, used for seeded changes) never touch the committed evidence
-EVIDENCE_DIR = "evidence" if os.environ.get("INDIPY_SRC", "/repo") == "/repo" else os.path.join("scratch", "evidence-alt")
+EVIDENCE_DIR = os.environ.get("VF_EVIDENCE_DIR") or ("evidence" if os.environ.get("INDIPY_SRC", "/repo") == "/repo" else os.path.join("scratch", "evidence-alt"))
 SLACK = Fraction(1, 10 ** 6)          # float error allowance, |n| <= 1e9 (2^-53 * 1e9 ~ 1.1e-7 per operation)
 RANGE = 10 ** 9
 
